@@ -318,14 +318,27 @@ def run(chk):
                 samples.append({"hops": n, "afi": c["afi"], "nlri_len": c["nlen"], "secs": c["secs"], "target": c["target"],
                                 "existing_sig_lens": [len(g[1]) // 2 for g in c["sigs"]]})
             try:
-                examine_sign(env, c, stats, cli=(i % (6 if quick else 20) == 0))
+                # the signer's nonce decides the DER length of the signature (69 bytes or fewer when r or s has leading zero bytes,
+                # about 1 draw in 250): every fourth case forces a short one, every eighth the longest form
+                cls = {1: (8, 69), 5: (8, 69), 3: (72, 72)}.get(i % 8, (0, 0))
+                env.h.ask(["sigclass %d %d" % cls])
+                stats.setdefault("forced_signature_length", {}).setdefault("%d-%d" % cls, 0)
+                stats["forced_signature_length"]["%d-%d" % cls] += 1
+                try:
+                    examine_sign(env, c, stats, cli=(i % (6 if quick else 20) == 0))
+                finally:
+                    env.h.ask(["sigclass 0 0"])
                 for desc, d, op, codes in error_cases(rnd, env, c):
                     stats["error_cases"] += 1
                     examine_error(env, desc, d, op, codes, stats)
                 if i % 4 == 0:
                     examine_sign(env, c, stats)      # the good key again after the unloadable ones
             except base.Finding as f:
-                if f.kind == "impl-vs-spec" and f.key in ("signing-layout", "signature-rejected", "sign-failed"):
+                if cls != (0, 0) and "op" not in f.detail:
+                    f.detail["op"] = "sigclass %d %d\nsign %d" % (cls + (f.case.get("signer", 0),))
+                    f.detail["forced_signature_length"] = list(cls)
+                    report(chk, env, f, "sign %d" % f.case.get("signer", 0))
+                elif f.kind == "impl-vs-spec" and f.key in ("signing-layout", "signature-rejected", "sign-failed"):
                     def fails(d, key=f.key):
                         try:
                             examine_sign(env, d, {"evaluations": 0, "codes": {}, "sig_len": {}, "cli_checks": 0})
